@@ -1394,6 +1394,7 @@ func (vfs *MemFS) rename(oldpath, newpath string) (retry bool, err error) {
 	}
 
 	// the path walks in progress that went through the entry are no longer valid.
+	verifYield(nil, false)
 	atomic.AddUint64(vfs.renameSeq, 1)
 
 	nParent.addChild(nPI.Part(), oChild)
